@@ -37,9 +37,9 @@ Proof. intros p H. destruct (Qltb p 0) eqn:E; [qbool; lra | reflexivity]. Qed.
 (* norms                                                                                             *)
 (* ------------------------------------------------------------------------------------------------ *)
 Lemma cq_n2_nonneg : forall a, 0 <= cq_n2 a.
-Proof. intros [r i]. unfold cq_n2; simpl. nra. Qed.
+Proof. intros [r i]. unfold cq_n2. rewrite Qred_correct. cbn [fst snd]. nra. Qed.
 Lemma cqs_n2_nonneg : forall l, 0 <= cqs_n2 l.
-Proof. induction l as [|a l IH]; simpl; [lra | pose proof (cq_n2_nonneg a); lra]. Qed.
+Proof. induction l as [|a l IH]; cbn [cqs_n2]; [lra | rewrite Qred_correct; pose proof (cq_n2_nonneg a); lra]. Qed.
 Lemma v_norm2_nonneg : forall x, 0 <= v_norm2 x.
 Proof. destruct x; simpl; [apply cq_n2_nonneg | lra | apply cqs_n2_nonneg]. Qed.
 
@@ -117,7 +117,7 @@ Qed.
 Definition vreal (q : Q) : value := VNum (q, 0).
 
 Lemma real_n2 : forall e s, cq_n2 (cq_sub (e, 0) (s, 0)) == (e - s) * (e - s).
-Proof. intros. unfold cq_n2, cq_sub; simpl. ring. Qed.
+Proof. intros. unfold cq_n2, cq_sub; cbn [fst snd]. rewrite !Qred_correct. ring. Qed.
 
 Lemma within_abs_real : forall e s t, 0 <= t ->
   exists b, within_tolerance (vreal e) (vreal s) (t_abs t) = Some b /\ (b = true <-> Qabs (e - s) <= t).
@@ -136,7 +136,8 @@ Proof.
   - apply within_pct_spec with (d := VNum (cq_sub (e, 0) (s, 0))); try reflexivity. exact Hp.
   - simpl v_norm2. rewrite Qle_bool_iff. rewrite real_n2. rewrite <- Qabs_sq.
     assert (E : cq_n2 (e, 0) * (p * p * ((1 # 100) * (1 # 100))) == (p / 100 * Qabs e) * (p / 100 * Qabs e)).
-    { unfold cq_n2; simpl. setoid_replace (e * e + 0 * 0) with (Qabs e * Qabs e) by (rewrite Qabs_sq; ring). field. }
+    { unfold cq_n2; cbn [fst snd]. rewrite Qred_correct.
+      setoid_replace (e * e + 0 * 0) with (Qabs e * Qabs e) by (rewrite Qabs_sq; ring). field. }
     rewrite E. symmetry. apply sq_le_iff; [apply Qabs_nonneg | ].
     apply Qmult_le_0_compat; [ | apply Qabs_nonneg]. apply Qle_shift_div_l; lra.
 Qed.
@@ -166,13 +167,13 @@ Inductive v_equiv : value -> value -> Prop :=
 | EqArr : forall s a b, Forall2 cq_equiv a b -> v_equiv (VArr s a) (VArr s b).
 
 Lemma cq_sub_equiv_n2 : forall a b, cq_equiv a b -> cq_n2 (cq_sub a b) == 0.
-Proof. intros [ar ai] [br bi] [E1 E2]; unfold cq_n2, cq_sub; simpl in *. rewrite E1, E2. ring. Qed.
+Proof. intros [ar ai] [br bi] [E1 E2]; unfold cq_n2, cq_sub; cbn [fst snd] in *. rewrite !Qred_correct. rewrite E1, E2. ring. Qed.
 
 Lemma cqs_sub_equiv : forall a b, Forall2 cq_equiv a b -> exists d, cqs_sub a b = Some d /\ cqs_n2 d == 0.
 Proof.
   induction 1 as [|x y a b Hxy _ [d [Hd Hn]]]; simpl.
   - exists []. split; [reflexivity | reflexivity].
-  - rewrite Hd. exists (cq_sub x y :: d). split; [reflexivity|]. simpl. rewrite Hn, (cq_sub_equiv_n2 _ _ Hxy). ring.
+  - rewrite Hd. exists (cq_sub x y :: d). split; [reflexivity|]. cbn [cqs_n2]. rewrite Qred_correct, Hn, (cq_sub_equiv_n2 _ _ Hxy). ring.
 Qed.
 
 Lemma shape_eqb_refl : forall s, shape_eqb s s = true.
